@@ -26,6 +26,7 @@ contract(
         and (forall_idx(len(data), lambda j: same(self._values[j], data[j]) and same(self._keys[j], j)) if isinstance(data, list)
              else forall_idx(len(data), lambda j: same(self._keys[j], list(data.keys())[j]) and same(self._values[j], list(data.values())[j]))),
     raises={"TypeError": lambda data: not isinstance(data, (list, dict)) or not data},
-    serves=["C03"],
+    init_fields=dict(_keys=TupleOf(), _values=TupleOf(), _is_list=Bool()),
+    serves=["C03", "C01", "C07"],
     note="wraps a non-empty list / mapping as aligned key and value sequences in document order; anything else: TypeError",
 )
